@@ -111,7 +111,7 @@ def gen(t, tier):
 
 
 def _gen_defrag(t):
-    return ['defrag', t.pick([0, 0, 0.01, 0.1, 0.9]), t.pick([0, 0, 100, 1024 * 1024])]
+    return ['defrag', t.pick([0, 0, 0.01, 0.1, 0.9]), t.pick([0, 0, 100, 1024 * 1024]), bool(t.chance(0.15))]
 
 
 def shrink(sc):
@@ -177,6 +177,15 @@ def _defrag(w, runner_cache, version, pool, model_get, op, what, probes):
         t = C.make_tile(c)
         runner_cache.load_tile(t)
         before[tuple(c)] = C.read_tile_bytes(t) if t.source is not None else None
+    if len(op) > 3 and op[3]:
+        # dry run: reports only, not a byte may change
+        defrag_compact_cache(runner_cache, min_percent=op[1], min_bytes=op[2], dry_run=True)
+        after_tree = w.fs.tree()
+        if after_tree != before_tree:
+            changed = sorted(k for k in set(before_tree) | set(after_tree) if before_tree.get(k) != after_tree.get(k))
+            raise M.Mismatch('dry-run-changed-files', '%s: a dry run changed %s' % (what, changed[:4]))
+        probes['defrag_dry_runs'] = probes.get('defrag_dry_runs', 0) + 1
+        return
     defrag_compact_cache(runner_cache, min_percent=op[1], min_bytes=op[2])
     n, tree = _validate(w, version, what + ' (after defrag)')
     after_sizes = _bundle_sizes(tree)
